@@ -33,6 +33,8 @@ type C11Case struct {
 	OneTime bool     `json:"oneTime,omitempty"` // oneTimeEvent create
 	Rech    string   `json:"rech,omitempty"`    // recharging path parameter shape: ok|nounderscore|many|nonnumeric|empty-rg|unknown-ue|negative
 	Garbage string   `json:"garbage,omitempty"` // a body that is not a charging data request at all
+	NMUU    int      `json:"nMuu,omitempty"`    // extra multipleUnitUsage entries (0-2)
+	NCont   int      `json:"nCont,omitempty"`   // extra used-unit containers in the first entry (0-2)
 }
 
 var dropPaths = []string{
@@ -49,8 +51,10 @@ var dropPaths = []string{
 
 func genC11(t *rapid.T) C11Case {
 	c := C11Case{Route: rapid.SampledFrom([]string{"create", "lifecycle", "update", "update", "release", "recharge"}).Draw(t, "route")}
-	c.Mcc = rapid.SampledFrom([]string{"208", "208", "208", "", "2", "20", "2081", "abc"}).Draw(t, "mcc")
-	c.Mnc = rapid.SampledFrom([]string{"93", "93", "930", "", "9", "9300", "x"}).Draw(t, "mnc")
+	c.Mcc = rapid.SampledFrom([]string{"208", "208", "208", "", "2", "20", "2081", "abc", "1\u00e9", "20\uff18", "\u00e9\u00e9\u00e9"}).Draw(t, "mcc")
+	c.Mnc = rapid.SampledFrom([]string{"93", "93", "930", "", "9", "9300", "x", "\u00e9", "9\u00e9", "\uff19\uff13"}).Draw(t, "mnc")
+	c.NMUU = rapid.SampledFrom([]int{0, 0, 1, 2}).Draw(t, "nMuu")
+	c.NCont = rapid.SampledFrom([]int{0, 0, 1, 2}).Draw(t, "nCont")
 	c.PDU = rapid.Bool().Draw(t, "pdu")
 	c.Reg = rapid.IntRange(0, 4).Draw(t, "reg") == 0
 	c.Q = rapid.SampledFrom([]string{"ONLINE_CHARGING", "ONLINE_CHARGING", "OFFLINE_CHARGING", "QUOTA_MANAGEMENT_SUSPENDED", "", "BOGUS"}).Draw(t, "q")
@@ -162,6 +166,16 @@ func (c C11Case) body(supi string, chargingID int32, lsn int32) []byte {
 			"usedUnitContainer": []interface{}{map[string]interface{}{"quotaManagementIndicator": c.Q, "totalVolume": 1, "uplinkVolume": 1, "downlinkVolume": 0, "localSequenceNumber": lsn}},
 		}},
 	}
+	muus := m["multipleUnitUsage"].([]interface{})
+	first := muus[0].(map[string]interface{})
+	for i := 0; i < c.NCont; i++ {
+		first["usedUnitContainer"] = append(first["usedUnitContainer"].([]interface{}), map[string]interface{}{"quotaManagementIndicator": "OFFLINE_CHARGING", "totalVolume": 2, "localSequenceNumber": lsn + int32(10+i)})
+	}
+	for i := 0; i < c.NMUU; i++ {
+		muus = append(muus, map[string]interface{}{"ratingGroup": 2 + i, "requestedUnit": map[string]interface{}{"totalVolume": 10},
+			"usedUnitContainer": []interface{}{map[string]interface{}{"quotaManagementIndicator": "OFFLINE_CHARGING", "totalVolume": 1, "localSequenceNumber": lsn + int32(20+i)}}})
+	}
+	m["multipleUnitUsage"] = muus
 	if c.Q == "" {
 		delete(m["multipleUnitUsage"].([]interface{})[0].(map[string]interface{})["usedUnitContainer"].([]interface{})[0].(map[string]interface{}), "quotaManagementIndicator")
 	}
